@@ -3,11 +3,11 @@ Q, T = "quick", "thorough"
 PROP = dict(
     level="exploration",
     level_text="Relational monitor on the real Schedule: applyAction(n, A, M) on generated schedules (1-3 ACTIONX blocks, bodies from "
-               "12 action-valid keyword templates with '?' and explicit names, sequences of up to 3 applications with non-decreasing "
+               "18 action-valid keyword templates (WPIMULT in both forms among them; a body with WPIMULT is the only application at its step, the deck proper has none; WELPI bodies are checked for the immutability of the past only) with '?' and explicit names, sequences of up to 3 applications with non-decreasing "
                "step, random matching sets) is compared state by state with the schedule built from the inlined deck; states before n "
                "are compared before/after and watched online through the guarded hook while the action keywords are handled.",
     level_note="Structural dump with keyword locations elided and the ACTIONX event marker masked at the application steps. Bodies "
-               "exclude the per-report-step keywords the statement exempts (WPIMULT, connection-level WELOPEN).",
+               "exclude the per-report-step cases the statement exempts (WPIMULT accumulating within a step, connection-level WELOPEN).",
     technique="differential monitor (applied vs inlined schedule) + invariant hook on earlier snapshots",
     rule="case = (generated schedule, sequence of (action, step, matching wells)); non-trivial: the application changed state n; "
          "distinct = hash(deck, applications)",
